@@ -880,6 +880,25 @@ func TestC08Windows(t *testing.T) {
 				}
 				st.Inc("focused_cases")
 			}
+			if c.A.Kind == "getbytime" && c.Point == "reader.index.before-load" && len(w.m.Live) >= 2 && uni(rt, 3, "empty_head_template") > 0 {
+				// a time lookup beyond every live message on a log whose head has just been emptied, while a Publish puts a
+				// message into that head whose time is still before the one asked for: the lookup has to walk from the
+				// empty head back into a segment it must load first
+				p := &SCall{Kind: "delete", Set: []int64{w.m.Live[len(w.m.Live)-1].Off}}
+				c.Prefix = append(c.Prefix, p)
+				w.seq(p)
+				p2 := &SCall{Kind: "gc"}
+				c.Prefix = append(c.Prefix, p2)
+				w.seq(p2)
+				top := w.m.MaxT
+				if g.maxT > top {
+					top = g.maxT
+				}
+				c.A.TS = top + 5
+				c.Bs = []*SCall{{Kind: "publish", Msgs: []MsgIn{{TS: top + int64(uni(rt, 5, "pub_ts")), K: append([]byte{}, winKeys[0]...), V: []byte("late")}}}}
+				g.maxT = top + 5
+				st.Inc("empty_head_time_lookup_cases")
+			}
 			if exact && c.A.Kind == "delete" && len(w.m.Live) > 0 && rapid.Bool().Draw(rt, "exact_template") {
 				// the head is exactly as big as Rollover: a delete in it, one publish that still fits by the writer's
 				// own test, one that rolls
